@@ -49,6 +49,9 @@ NHuge     == Big(-1, HugeText)
 Inexact   == NumC("inexact")
 Tiny(s, d) == [t |-> "num", c |-> "tiny", s |-> s, d |-> d]  \* s * d, d = "0.00.." canonical decimal text, 0 < d < 1/100
 TinyText  == "0.0000000000000001"                           \* 1e-16, below the machine epsilon
+(* any other decimal numeral of at most 15 significant digits (0.26, 123.45): the double nearest to it is printed back digit   *)
+(* for digit, distinct numerals are distinct doubles in the same order, and it is on the numeral's side of every n/64           *)
+Dec(s, d) == [t |-> "num", c |-> "dec", s |-> s, d |-> d]   \* s * d, d = canonical "ip.fp" (fp non-empty, no trailing zero), 1/100 <= d < 2^24, not a multiple of 1/64
 IntV(k)    == Fin(k * Den)
 Str(s)    == [t |-> "str", s |-> s]
 AnyChar   == [t |-> "str1"]     \* some one-character string the model does not name
@@ -104,12 +107,13 @@ NKind(v) ==      \* "nan" | "inexact" | "inf" | "huge" | "tiny" | "zero" | "fin"
     [] v.c \in {"pinf", "ninf"} -> "inf"
     [] v.c = "big" -> "huge"
     [] v.c = "tiny" -> "tiny"
+    [] v.c = "dec" -> "dec"
     [] v.c = "nzero" -> "zero"
     [] v.c = "fin" -> IF v.n = 0 THEN "zero" ELSE "fin"
 
 NSign(v) ==      \* +1 | -1 ; meaningless for nan / inexact
   CASE v.c \in {"ninf", "nzero"} -> -1
-    [] v.c \in {"big", "tiny"} -> v.s
+    [] v.c \in {"big", "tiny", "dec"} -> v.s
     [] v.c = "fin" -> IF v.n < 0 THEN -1 ELSE 1
     [] OTHER -> 1
 
@@ -125,6 +129,7 @@ NumNeg(a) ==
     [] a.c = "ninf"  -> PInf
     [] a.c = "big"   -> Big(-a.s, a.d)
     [] a.c = "tiny"  -> Tiny(-a.s, a.d)
+    [] a.c = "dec"   -> Dec(-a.s, a.d)
     [] OTHER -> a
 
 NumAdd(a, b) ==
@@ -140,7 +145,7 @@ NumAdd(a, b) ==
     [] ka = "zero" /\ kb = "zero" -> IF NSign(a) < 0 /\ NSign(b) < 0 THEN NZero ELSE Fin(0)
     [] ka = "zero" -> b
     [] kb = "zero" -> a
-    [] ka = "tiny" \/ kb = "tiny" -> Inexact
+    [] ka \in {"tiny", "dec"} \/ kb \in {"tiny", "dec"} -> Inexact
     [] OTHER -> MkFin(a.n + b.n)        \* x + (-x) = +0 under round-to-nearest
 
 NumSub(a, b) == NumAdd(a, NumNeg(b))     \* IEEE: x - y = x + (-y)
@@ -158,6 +163,9 @@ NumMul(a, b) ==
     [] ka = "tiny" /\ kb = "fin" /\ Abs(b.n) = Den -> Tiny(s, a.d)
     [] kb = "tiny" /\ ka = "fin" /\ Abs(a.n) = Den -> Tiny(s, b.d)
     [] ka = "tiny" \/ kb = "tiny" -> Inexact
+    [] ka = "dec" /\ kb = "fin" /\ Abs(b.n) = Den -> Dec(s, a.d)
+    [] kb = "dec" /\ ka = "fin" /\ Abs(a.n) = Den -> Dec(s, b.d)
+    [] ka = "dec" \/ kb = "dec" -> Inexact
     [] OTHER ->
         LET x == Abs(a.n) y == Abs(b.n) IN
         IF x % Den = 0 /\ (x \div Den) <= MaxN \div y THEN MkFin(s * ((x \div Den) * y))       \* an integer factor: no intermediate overflow
@@ -179,11 +187,19 @@ NumDiv(a, b) ==
     [] ka = "huge" \/ kb = "huge" -> Inexact
     [] ka = "tiny" /\ kb = "fin" /\ Abs(b.n) = Den -> Tiny(s, a.d)
     [] ka = "tiny" \/ kb = "tiny" -> Inexact
+    [] ka = "dec" /\ kb = "fin" /\ Abs(b.n) = Den -> Dec(s, a.d)
+    [] ka = "dec" \/ kb = "dec" -> Inexact
     [] OTHER ->
         LET x == Abs(a.n) y == Abs(b.n) IN
         IF x > MaxInt \div Den THEN Inexact
         ELSE LET p == x * Den IN
              IF p % y # 0 THEN Inexact ELSE MkFin(s * (p \div y))
+
+(* the parts of a canonical decimal text "ip.fp" *)
+DecDot(d) == LET RECURSIVE F(_) F(i) == IF i > Len(d) THEN 0 ELSE IF CharAt(d, i) = "." THEN i ELSE F(i + 1) IN F(1)
+DecIp(d) == IF DecDot(d) = 0 THEN d ELSE SubSeq(d, 1, DecDot(d) - 1)
+DecFp(d) == IF DecDot(d) = 0 THEN "" ELSE SubSeq(d, DecDot(d) + 1, Len(d))
+DecInt(d) == LET RECURSIVE V(_, _) V(t, acc) == IF t = "" THEN acc ELSE V(SubSeq(t, 2, Len(t)), acc * 10 + DigitVal(CharAt(t, 1))) IN V(DecIp(d), 0)
 
 (* the three roundings of `turn`: ceil, floor, round-half-away-from-zero.  *)
 (* A zero result keeps the sign of the operand, as in IEEE.                *)
@@ -191,6 +207,13 @@ NumRound(a, dir) ==      \* dir \in {"up", "down", "nearest"}
   IF a.c = "tiny" THEN (CASE dir = "nearest" -> Zero(a.s)
                           [] dir = "up"   -> IF a.s > 0 THEN IntV(1) ELSE NZero
                           [] dir = "down" -> IF a.s > 0 THEN Fin(0) ELSE IntV(-1))
+  ELSE IF a.c = "dec" THEN
+         (LET ip == DecInt(a.d)                                   \* magnitude rounded toward zero
+              half == DigitVal(CharAt(a.d, DecDot(a.d) + 1)) >= 5  \* a dec is never exactly half-way (that would be a multiple of 1/64)
+              m == CASE dir = "nearest" -> IF half THEN ip + 1 ELSE ip
+                     [] dir = "up"      -> IF a.s > 0 THEN ip + 1 ELSE ip
+                     [] dir = "down"    -> IF a.s > 0 THEN ip ELSE ip + 1
+          IN IF m = 0 THEN Zero(a.s) ELSE MkFin(a.s * m * Den))
   ELSE IF a.c # "fin" \/ a.n % Den = 0 THEN a
   ELSE LET s == NSign(a)
            x == Abs(a.n)
@@ -201,6 +224,29 @@ NumRound(a, dir) ==      \* dir \in {"up", "down", "nearest"}
                   [] dir = "down"    -> IF s > 0 THEN lo ELSE hi
        IN IF m = 0 THEN Zero(s) ELSE MkFin(s * m)
 
+RECURSIVE NatToStr(_)
+NatToStr(k) == IF k < 10 THEN CharAt("0123456789", k + 1)
+               ELSE NatToStr(k \div 10) \o CharAt("0123456789", (k % 10) + 1)
+RECURSIVE StripZeros(_)
+StripZeros(s) == IF s # "" /\ CharAt(s, Len(s)) = "0" THEN StripZeros(SubSeq(s, 1, Len(s) - 1)) ELSE s
+RECURSIVE PadLeft(_, _)
+PadLeft(s, w) == IF Len(s) >= w THEN s ELSE PadLeft("0" \o s, w)
+
+(* magnitude of a finite number in the middle band as canonical decimal text "ip" or "ip.fp" *)
+AbsText(v) ==
+  CASE v.c \in {"tiny", "dec"} -> v.d
+    [] v.c = "fin" -> LET x == Abs(v.n)
+                          fr == StripZeros(PadLeft(NatToStr(((x % Den) * 1000000) \div Den), 6))
+                      IN NatToStr(x \div Den) \o (IF fr = "" THEN "" ELSE "." \o fr)
+    [] OTHER -> "0"
+(* order of two canonical decimal texts: longer integer part first, then digit by digit (a canonical fraction has no trailing zero, *)
+(* so a proper prefix is the smaller one)                                                                                           *)
+DecTextCmp(x, y) ==
+  LET xi == DecIp(x) yi == DecIp(y) IN
+  IF Len(xi) # Len(yi) THEN (IF Len(xi) < Len(yi) THEN "lt" ELSE "gt")
+  ELSE IF StrCmp(xi, yi) # "eq" THEN StrCmp(xi, yi)
+  ELSE StrCmp(DecFp(x), DecFp(y))
+
 (* IEEE == and partial_cmp *)
 NumEq(a, b) ==      \* "T" | "F" | "U"
   LET ka == NKind(a) kb == NKind(b) IN
@@ -209,7 +255,7 @@ NumEq(a, b) ==      \* "T" | "F" | "U"
     [] ka = "zero" /\ kb = "zero" -> "T"
     [] ka # kb -> "F"
     [] ka = "fin" -> IF a.n = b.n THEN "T" ELSE "F"
-    [] ka \in {"huge", "tiny"} -> IF a.s = b.s /\ a.d = b.d THEN "T" ELSE "F"
+    [] ka \in {"huge", "tiny", "dec"} -> IF a.s = b.s /\ a.d = b.d THEN "T" ELSE "F"
     [] OTHER -> IF a.c = b.c THEN "T" ELSE "F"
 
 Rank(v) ==      \* position on the extended real line, finite values in the middle band
@@ -226,6 +272,13 @@ NumCmp(a, b) ==     \* "lt" | "eq" | "gt" | "none" | "unk"
                   ELSE StrCmp(a.d, b.d)
          IN IF a.s > 0 THEN m ELSE (CASE m = "lt" -> "gt" [] m = "gt" -> "lt" [] OTHER -> "eq")
     [] Rank(a) # 0 -> "eq"
+    [] ka = "dec" \/ kb = "dec" ->      \* the middle band by decimal text: sign first (a zero has none), then magnitude
+         LET sg(v, k) == IF k = "zero" THEN 0 ELSE NSign(v)
+             x == sg(a, ka) y == sg(b, kb)
+         IN IF x # y THEN (IF x < y THEN "lt" ELSE "gt")
+            ELSE IF x = 0 THEN "eq"
+            ELSE LET m == DecTextCmp(AbsText(a), AbsText(b)) IN
+                 IF x > 0 THEN m ELSE (CASE m = "lt" -> "gt" [] m = "gt" -> "lt" [] OTHER -> "eq")
     [] OTHER -> \* the middle band, on a doubled scale that leaves room for the tiny numbers next to zero
                 LET key(v) == CASE v.c = "fin" -> 2 * v.n [] v.c = "tiny" -> v.s [] OTHER -> 0
                     x == key(a) y == key(b)
@@ -239,20 +292,12 @@ NumTruthy(a) ==     \* "T" | "F" | "U"  (n != 0.0 : NaN is truthy)
 
 (* Rust's Display for f64: shortest representation that round-trips, never *)
 (* in exponent form.  For n/64 that is the exact decimal expansion.        *)
-RECURSIVE NatToStr(_)
-NatToStr(k) == IF k < 10 THEN CharAt("0123456789", k + 1)
-               ELSE NatToStr(k \div 10) \o CharAt("0123456789", (k % 10) + 1)
-RECURSIVE StripZeros(_)
-StripZeros(s) == IF s # "" /\ CharAt(s, Len(s)) = "0" THEN StripZeros(SubSeq(s, 1, Len(s) - 1)) ELSE s
-RECURSIVE PadLeft(_, _)
-PadLeft(s, w) == IF Len(s) >= w THEN s ELSE PadLeft("0" \o s, w)
-
 NumToStr(a) ==
   CASE a.c = "nan" -> "NaN"
     [] a.c = "pinf" -> "inf"
     [] a.c = "ninf" -> "-inf"
     [] a.c = "nzero" -> "-0"
-    [] a.c \in {"big", "tiny"} -> (IF a.s < 0 THEN "-" ELSE "") \o a.d
+    [] a.c \in {"big", "tiny", "dec"} -> (IF a.s < 0 THEN "-" ELSE "") \o a.d
     [] a.c = "inexact" -> "?"
     [] a.c = "fin" ->
         LET x == Abs(a.n)
@@ -268,6 +313,7 @@ IndexOf(a) ==       \* [i, def]
     [] a.c = "pinf" -> [i |-> -1, def |-> FALSE]
     [] a.c = "big" -> IF a.s > 0 THEN [i |-> -1, def |-> TRUE] ELSE [i |-> 0, def |-> FALSE]
     [] a.c = "inexact" -> [i |-> 0, def |-> FALSE]
+    [] a.c = "dec" -> [i |-> IF a.s < 0 THEN 0 ELSE DecInt(a.d), def |-> FALSE]
     [] OTHER -> [i |-> 0, def |-> FALSE]          \* -0, NaN, -inf -> 0
 
 (* The number a poetic literal denotes, from its digits (Poetic.tla): sum of digit * 10^place in double arithmetic.  For an  *)
@@ -326,7 +372,11 @@ ParseNum0(s) ==     \* a number value | None | Unk ; no exponent
             \* a non-zero fraction below 1/100 with at most 15 significant digits is printed back digit for digit
             lead == LET RECURSIVE Z(_) Z(i) == IF i <= Len(fp) /\ CharAt(fp, i) = "0" THEN Z(i + 1) ELSE i - 1 IN Z(1)
             tiny == iv = 0 /\ fp # "" /\ lead >= 2 /\ Len(fp) - lead <= 15 /\ Len(fp) <= 40
-            orTiny == IF tiny THEN Tiny(IF neg THEN -1 ELSE 1, "0." \o fp) ELSE Inexact
+            \* any other fraction of at most 15 significant digits (the integer part is within the fixed-point band here)
+            dec == fp # "" /\ Len(fp) <= 40 /\ (IF iv = 0 THEN Len(fp) - lead ELSE Len(NatToStr(iv)) + Len(fp)) <= 15
+            orTiny == IF tiny THEN Tiny(IF neg THEN -1 ELSE 1, "0." \o fp)
+                      ELSE IF dec THEN Dec(IF neg THEN -1 ELSE 1, NatToStr(iv) \o "." \o fp)
+                      ELSE Inexact
             \* an integer numeral of at most 15 significant digits beyond the fixed-point band is a double exactly
             ipS == LET RECURSIVE Z(_) Z(t) == IF Len(t) > 1 /\ CharAt(t, 1) = "0" THEN Z(SubSeq(t, 2, Len(t))) ELSE t IN Z(ip)
         IN IF iv < 0 \/ iv > MaxN \div Den THEN (IF fp = "" /\ Len(ipS) <= 15 THEN Big(IF neg THEN -1 ELSE 1, ipS) ELSE Inexact)
@@ -523,6 +573,7 @@ Times(a, b) ==
                 [] NKind(k) = "zero" -> Str("")            \* also -0 : -0.0 >= 0.0
                 [] NSign(k) < 0 -> Myst
                 [] NKind(k) = "tiny" -> Str("")              \* truncated to zero repetitions
+                [] NKind(k) = "dec" -> IF DecInt(k.d) > MaxRepeat THEN Blowup ELSE Str(Repeat(p[1].s, DecInt(k.d)))   \* truncated
                 [] NKind(k) \in {"inf", "huge"} -> Blowup
                 [] OTHER -> IF k.n \div Den > MaxRepeat THEN Blowup ELSE Str(Repeat(p[1].s, k.n \div Den))
          [] OTHER -> Myst
